@@ -298,11 +298,16 @@ func GenUciSession(prop string, seed uint64) *Scenario {
 	for _, o := range EngineOptions {
 		curOpt[o.Name] = o.Default
 	}
+	wsRate := []float64{0, 0, 0.03, 0.15}[rng.Intn(4)]
 	add := func(gap int64, op, line string) *Step {
 		if n, v, ok := parseSetOption(line); ok && op == "send" {
 			curOpt[n] = v
 		}
 		sc.Steps = append(sc.Steps, Step{GapUs: gap, Op: op, Line: line})
+		if op == "send" && wsRate > 0 && rng.Chance(wsRate) {
+			// "arbitrary white space between tokens is allowed" (UCI)
+			sc.Steps[len(sc.Steps)-1].Ws = rng.Range(1, 5)
+		}
 		return &sc.Steps[len(sc.Steps)-1]
 	}
 	add(100, "send", "uci")
